@@ -9,7 +9,8 @@ code: bit i = coefficient of x^i).  The bit-0 manipulations of the C text (`wwTe
 they are in the polynomial basis.
 
 Repaired behaviours: the public-key check `ec2IsOnA` in dstuVerify (docs/C16.fix-3.diff) and the
-x = 0 branches of dstuPointCompress / dstuPointRecover (docs/C16.fix-4.diff).
+x = 0 branches of dstuPointCompress / dstuPointRecover (docs/C16.fix-4.diff), dstuPointCompress refusing the
+point (1, y) with tr(y) = 0 (docs/C16.fix-5.diff).
 -/
 import Bee2V.C16.Common
 namespace Bee2V.C16
@@ -154,6 +155,8 @@ def compress (C : Dstu G F) (pt : Bytes) : Err × Bytes :=
   | some (x, y) =>
     if C.f.isZero x then (.ok, zeros C.no) else
     let t := C.f.tr (C.f.div y x)
+    -- the point (1, y) with tr(y) = 0 has no code of its own (it would get the code of (0, √B)): refused
+    if C.f.isZero (C.f.add x C.f.one) && !t then (.badPoint, []) else
     let x0 := C.f.clearLow x
     (.ok, C.encF (if t then C.f.add x0 C.f.one else x0))
 
